@@ -327,8 +327,8 @@ def judge_one(case, tr, info, reset_timeout):
                 bad.append(("C11/hang/waiter-left-pending", "reset() whose RST write failed neither returned nor raised"))
         elif out[0] == "ret":
             bad.append(("C11/completion/without-software-rstack", "reset() returned although its RST could not be written"))
-        elif abs(out[1] - t_call) > EPS:
-            bad.append(("C11/request/failed-write-not-reported-at-once", f"reset() raised {out[2]} {out[1] - t_call:.3f}s after the failed write"))
+        elif out[1] - t_call > reset_timeout + 1e-5:
+            bad.append(("C11/timeout/not-the-reset-timeout", f"reset() whose RST could not be written raised {out[2]} only {out[1] - t_call:.3f}s later"))
         else:
             facts.add("rst_write_failed")
         return bad, facts
